@@ -139,6 +139,14 @@ pub struct Core {
     /// address of the bump cursor word (learned from the first CAS the fast path performs on it)
     pub cursor_addr: usize,
     pub parked_until: Vec<u64>,
+    /// per node address: who marked it as removed and what became of its unlink CAS
+    pub marks: HashMap<usize, (usize, &'static str)>,
+    pub pending_unlink: Vec<Option<usize>>,
+    /// per thread: the node it last saw marked as removed (what it is waiting for when it spins)
+    pub last_removed_seen: Vec<Option<usize>>,
+    pub sentinel_addr: usize,
+    /// free list as walked (raw reads) at the moment a hang was declared
+    pub hang_list: Vec<(u32, u32, u32)>,
 }
 
 pub struct Sched {
@@ -218,12 +226,17 @@ impl Core {
             refs_busy: vec![],
             cursor_addr: 0,
             parked_until: vec![],
+            marks: HashMap::new(),
+            pending_unlink: vec![],
+            last_removed_seen: vec![],
+            sentinel_addr: 0,
+            hang_list: vec![],
         }
     }
 
     pub fn viol(&mut self, props: &[&'static str], sig: String, msg: String) {
         if self.viols.len() < 8 {
-            let ring = self.ring.iter().rev().take(48).rev().cloned().collect();
+            let ring = self.ring.iter().rev().take(ring_cap().max(48)).rev().cloned().collect();
             self.viols.push(Viol { props: props.to_vec(), sig, msg, ring });
         }
     }
@@ -233,7 +246,7 @@ impl Core {
     }
 
     fn ring_push(&mut self, s: String) {
-        if self.ring.len() >= 64 {
+        if self.ring.len() >= ring_cap() {
             self.ring.remove(0);
         }
         self.ring.push(s);
@@ -254,6 +267,9 @@ impl Core {
         let calm: Vec<usize> = cands.iter().copied().filter(|t| !self.spinning[*t]).collect();
         // a spinning thread yields to the others (fairness assumption of C07)
         let pool: &Vec<usize> = if calm.is_empty() { &cands } else { &calm };
+        if calm.is_empty() && !matches!(self.strategy, Strategy::Pause { .. }) {
+            return *cands.iter().min_by_key(|x| self.since_write[**x]).unwrap();
+        }
         match self.strategy.clone() {
             Strategy::Random(p) => {
                 if pool.contains(&me) && self.rng.below(100) >= p as u64 {
@@ -322,6 +338,9 @@ impl Core {
                 }
                 if self.runnable(t) && !self.spinning[t] {
                     t
+                } else if calm.is_empty() {
+                    // everybody spins: give each of them its turn, so that M-progress can reach its verdict
+                    *pool.iter().min_by_key(|x| self.since_write[**x]).unwrap()
                 } else if pool.contains(&me) {
                     me
                 } else {
@@ -352,6 +371,17 @@ fn yield_point(me: usize, pend: Option<&Pending>) {
     let unfinished: Vec<usize> = (1..c.n).filter(|t| c.runnable(*t)).collect();
     if !unfinished.is_empty() && unfinished.iter().all(|t| c.since_write[*t] > c.b_budget) {
         c.hang = true;
+        // witness: walk the free list with raw reads while every thread is parked
+        if c.sentinel_addr != 0 {
+            let mut list = vec![];
+            let mut next = unsafe { *(c.sentinel_addr as *const u64) } as u32;
+            while next != u32::MAX && list.len() < 64 && (next as usize) + 8 <= c.cap && next % 8 == 0 {
+                let w = unsafe { *((c.base + next as usize) as *const u64) };
+                list.push((next, (w >> 32) as u32, w as u32));
+                next = w as u32;
+            }
+            c.hang_list = list;
+        }
         c.abort = true;
         for cv in s.cvs.iter() {
             cv.notify_all();
@@ -506,6 +536,39 @@ fn hook_after(e: &Event) {
             }
         }
     }
+    // ---- removal protocol bookkeeping (for the witness shape of C07 verdicts) --------------------
+    if c.pending_unlink.len() < c.n {
+        c.pending_unlink = vec![None; c.n];
+    }
+    if c.last_removed_seen.len() < c.n {
+        c.last_removed_seen = vec![None; c.n];
+    }
+    if e.access == Access::Load && e.width == 8 && addr >= c.base && addr < c.base + c.cap {
+        c.last_removed_seen[me] = if (e.read >> 32) == 0 { Some(addr) } else { None };
+    }
+    if e.width == 8 && (e.read >> 32) == 0xffff_ffff && c.sentinel_addr == 0 {
+        c.sentinel_addr = addr;
+    }
+    let in_arena_or_header = true;
+    if in_arena_or_header && matches!(e.access, Access::Cas) {
+        if let Some(node) = c.pending_unlink[me] {
+            if node != addr {
+                // the CAS that follows a successful mark is the unlink from the predecessor
+                let st = if e.wrote { "unlink-succeeded" } else { "unlink-failed" };
+                c.marks.insert(node, (me, st));
+                c.pending_unlink[me] = None;
+            }
+        }
+        if e.wrote && (e.written >> 32) == 0 && (e.expected >> 32) != 0 && e.width == 8 && addr >= c.base && addr < c.base + c.cap {
+            c.marks.insert(addr, (me, "marked"));
+            c.pending_unlink[me] = Some(addr);
+        }
+    }
+    if e.access == Access::Store && e.width == 8 && (e.written >> 32) != 0 {
+        if let Some(m) = c.marks.get_mut(&addr) {
+            m.1 = "restored-or-reinserted";
+        }
+    }
     // ---- teardown bookkeeping: who performed the last decrement of refs --------------------------
     if e.access == Access::FetchSub && e.read == 1 && e.width == 8 {
         c.last_decrement_by = Some(me);
@@ -566,6 +629,11 @@ pub fn hb_check_range(c: &mut Core, me: usize, off: u32, len: u32, what: &str) {
             return;
         }
     }
+}
+
+pub fn ring_cap() -> usize {
+    static CAP: std::sync::OnceLock<usize> = std::sync::OnceLock::new();
+    *CAP.get_or_init(|| std::env::var("VH_RING").ok().and_then(|s| s.parse().ok()).unwrap_or(64))
 }
 
 pub fn install_hooks() {
